@@ -449,7 +449,7 @@ def pointData (a : PointArgs α) : Except CErr (PointData α) :=
       if !(f.cols.contains pk && f.cols.contains lk) then .error .param
       else
         let hasBranch := f.cols.contains "branch"
-        let columns := if hasBranch then [pk, lk] else [pk, lk, "branch"]
+        let columns := [pk, lk, "branch"]          -- one layout whether the marks come in the table or as an argument (repo fix S45-C05c)
         let other := f.cols.filter fun c => !columns.contains c
         let columns := columns ++ sortStrs other
         let otherKeys := columns.filter fun c => !(c == pk || c == lk || c == "branch")
